@@ -110,6 +110,11 @@ func parseSort(s string) Sort {
 		return SBV(32)
 	case "intarr":
 		return SArr(SInt, SInt)
+	case "boolarr":
+		return SArr(SInt, SBool)
+	case "u64", "u32", "u16", "u8":
+		// machine integers: bit-vectors in bv mode, mathematical integers otherwise
+		return Sort("@" + strings.TrimSpace(s))
 	}
 	panic("unknown sort in contract file: " + s)
 }
